@@ -49,6 +49,7 @@ type bastionSession struct {
 	doReq func(body []byte) (status int, ctype string, rbody []byte, ok bool)
 	e2e   int
 	allowPlan []int // per request: 1 allowed, 0 pushed back, 2 unknown (overrides allowN)
+	nomodel   int   // 1: the witness is another process (its signatures cannot be reproduced): monitors only
 }
 
 func (b *bastionSession) states() string {
@@ -74,7 +75,22 @@ func (b *bastionSession) serve(body []byte, class string, expect int, expectBody
 		}
 	}
 	b.sent++
+	// ground truth for the oracle: what the log verifiers say about the submitted checkpoint
+	if _, _, cp, err := bastion.VerifParseBody(bytes.NewReader(body)); err == nil {
+		for _, l := range b.logs {
+			_, _ = note.Open(cp, note.VerifierList(l.rv))
+		}
+	}
 	pre := b.states()
+	if b.nomodel == 1 {
+		// the endpoint (in another process) verifies the checkpoint the witness returns under its witness verifier:
+		// record what that verifier says about each log's current checkpoint
+		for _, l := range b.logs {
+			if st := mustState(b.session, l.id); st != nil {
+				_, _ = note.Open(st, note.VerifierList(b.wvRec))
+			}
+		}
+	}
 	req := httptest.NewRequest(http.MethodPost, "/", bytes.NewReader(body))
 	rec := httptest.NewRecorder()
 	status := 0
@@ -106,16 +122,16 @@ func (b *bastionSession) serve(body []byte, class string, expect int, expectBody
 		// 998 in the record; nothing more can be learnt from this witness
 		b.dead = true
 		hangCount++
-		b.t.line("H %s allow=%d body=%s states=%s class=%s expect=- expectbody=- e2e=%d => status=998 ctype=. rbody=. post=%s",
-			b.id, allow, hx(body), pre, class, b.e2e, pre)
+		b.t.line("H %s allow=%d body=%s states=%s class=%s expect=- expectbody=- e2e=%d nomodel=%d => status=998 ctype=. rbody=. post=%s",
+			b.id, allow, hx(body), pre, class, b.e2e, b.nomodel, pre)
 		return 998
 	}
 	post := b.states()
 	if b.dead {
 		// the request was answered but the next operation on the store never returned
 		hangCount++
-		b.t.line("H %s allow=%d body=%s states=%s class=%s expect=- expectbody=- e2e=%d => status=998 ctype=. rbody=. post=%s",
-			b.id, allow, hx(body), pre, class, b.e2e, pre)
+		b.t.line("H %s allow=%d body=%s states=%s class=%s expect=- expectbody=- e2e=%d nomodel=%d => status=998 ctype=. rbody=. post=%s",
+			b.id, allow, hx(body), pre, class, b.e2e, b.nomodel, pre)
 		return 998
 	}
 	rbody := rec.Body.Bytes()
@@ -143,8 +159,8 @@ func (b *bastionSession) serve(body []byte, class string, expect int, expectBody
 	if expectBody != "" {
 		eb = hx([]byte(expectBody))
 	}
-	b.t.line("H %s allow=%d body=%s states=%s class=%s expect=%s expectbody=%s e2e=%d => status=%d ctype=%s rbody=%s post=%s",
-		b.id, allow, hx(body), pre, class, exp, eb, b.e2e, status, hx([]byte(ct)), hx(rbody), post)
+	b.t.line("H %s allow=%d body=%s states=%s class=%s expect=%s expectbody=%s e2e=%d nomodel=%d => status=%d ctype=%s rbody=%s post=%s",
+		b.id, allow, hx(body), pre, class, exp, eb, b.e2e, b.nomodel, status, hx([]byte(ct)), hx(rbody), post)
 	return status
 }
 
